@@ -63,6 +63,13 @@ def cases(seed, tier):
     quick = tier == "quick"
     n_tri, n_flat, n_poly, n_vol, n_graph = (220, 40, 30, 64, 46) if quick else (14000, 2400, 1200, 4400, 2000)
     out = []
+    # anchors: the smallest inputs of each kind (one element, two elements, smallest closed surface), every history
+    for h in ("fresh", "shared", "angles"):
+        for a in ("one_triangle", "two_triangles", "tetra_surface", "octahedron"):
+            out.append({"gen": "tri", "anchor": a, "seed": 1, "generic": False, "history": h, "vrows": "list", "irows": "list", "fmt": "csc"})
+    for h in ("fresh", "shared"):
+        for a in ("one_tet", "two_tets"):
+            out.append({"gen": "vol", "anchor": a, "seed": 1, "jitter": 0.0, "history": h, "irows": "list", "fmt": "csr"})
     hist = ["fresh", "shared", "angles", "shared"]
     vr = ["list", "tuple", "nprow", "vec"]
     ir = ["list", "tuple", "npint", "nprow"]
@@ -769,7 +776,11 @@ def _poly_case(ctx, desc):
 def _vol_case(ctx, desc):
     import mouette as M
     O = M.operators
-    z = volumes.make(desc["seed"], max_size=desc["max_size"], jitter=desc["jitter"])
+    if desc.get("anchor"):
+        Va, Ca, na = volumes.anchors({"one_tet": 0, "two_tets": 1}[desc["anchor"]])
+        z = {"V": Va, "C": [list(map(int, c)) for c in Ca], "cls": na}
+    else:
+        z = volumes.make(desc["seed"], max_size=desc["max_size"], jitter=desc["jitter"])
     V, C = np.asarray(z["V"], float), z["C"]
     nV, nC = len(V), len(C)
     rng = random.Random(desc["seed"] ^ 0xC08)
@@ -893,7 +904,19 @@ def _graph_case(ctx, desc):
 def run_case(desc, ctx):
     g = desc["gen"]
     ctx.cls("kind:" + g)
-    if g == "tri":
+    if g == "tri" and desc.get("anchor"):
+        a = desc["anchor"]
+        if a == "one_triangle":
+            V, F = np.array([[0, 0, 0], [1, 0, 0], [0.3, 0.8, 0.1]], float), [[0, 1, 2]]
+        elif a == "two_triangles":
+            V, F = np.array([[0, 0, 0], [1, 0, 0], [1, 1, 0], [0, 1, 0.3]], float), [[0, 1, 2], [0, 2, 3]]
+        elif a == "tetra_surface":
+            V, F, _ = surfaces.tetra_surface()
+        else:
+            V, F, _ = surfaces.octahedron()
+        z = {"V": np.asarray(V, float), "F": [list(map(int, f)) for f in F], "cls": a, "topo": topo.analyse(len(V), F)}
+        _tri_case(ctx, desc, z, flat=False)
+    elif g == "tri":
         z = surfaces.make(desc["seed"], tri_only=True, generic=desc["generic"], max_size=desc["max_size"], closed=desc.get("closed"),
                           min_faces=desc.get("min_faces", 1))
         _tri_case(ctx, desc, z, flat=False)
